@@ -3,13 +3,16 @@
    from myst_parser/config/main.py on every run (Gen/Config.v); the model of the validators, of the
    dataclass and of merge_file_level is Cfg/Cfg.v; the documented types are Cfg/CfgSpec.v.
    Typing convention (JSON/YAML): a bool is not an int, a float is not an int. *)
-From Coq Require Import List NArith ZArith Bool.
+From Coq Require Import List NArith ZArith Bool String.
 From MV Require Import Base.PyStr Base.Res Cfg.StrOps Cfg.Cfg Cfg.CfgSpec Cfg.CfgProofs Gen.Config.
 From MV Require Import Cfg.CfgSrcPrelude Gen.ConfigSrc Cfg.CfgSrcProofs.
 Import ListNotations.
 Open Scope N_scope.
+Open Scope string_scope.
+Open Scope list_scope.
 
 From MV Require Import Cfg.CfgTableProofs.
+From MV Require Import Cfg.StrLit Cfg.MdParserPrelude Gen.MdParserSrc Cfg.MdParserProofs.
 (* the environment of the real table: the extension names of check_extensions, any importlib *)
 
 (* for every documented type, the validator tree built from the combinators (and the custom
@@ -90,8 +93,8 @@ Print Assumptions C13_frontmatter_equals_global.
    matter, the number of topmatter warnings of the merge loop is the number of such entries *)
 Theorem C13_invalid_ignored_once : forall E fs st st' ups,
   merge_loop E false fs st ups = Ok st' ->
-  length (st_warn st') =
-  (length (st_warn st) + length (filter (bad_update E fs (st_global st)) ups))%nat.
+  List.length (st_warn st') =
+  (List.length (st_warn st) + List.length (filter (bad_update E fs (st_global st)) ups))%nat.
 Proof. exact C13_invalid_ignored_once_proof. Qed.
 Print Assumptions C13_invalid_ignored_once.
 
@@ -239,6 +242,61 @@ Theorem C13_inplace_written_fields_fresh : forall n, In n inplace_written_fields
             forall imp c changes r, copy_o (E_of imp) fields c changes = Ok r -> shares_field n r = false.
 Proof. exact C13_inplace_written_fields_fresh_proof. Qed.
 Print Assumptions C13_inplace_written_fields_fresh.
+
+(* ---- parser construction (round 5): create_md_parser (parsers/mdit.py) REGENERATED into
+   Gen/MdParserSrc.v as a function config -> abstract parser description (preset, ordered enable / disable /
+   use steps with their options, options.update).  [has_linkify] = "linkify-it-py is installed"
+   (md.linkify is not None), the only input besides the config. ---- *)
+
+(* consistency of two source sites: every extension name tested in create_md_parser or used elsewhere in the
+   package is accepted by check_extensions (no dead branch); every accepted name is tested in create_md_parser
+   or used elsewhere (html_image / html_admonition / dollarmath / amsmath / attrs_image are also read by the
+   renderer and the Sphinx extension) - no accepted-but-ignored name; and every name tested in
+   create_md_parser changes the parser description of the default configuration (bound: the names present) *)
+Theorem C13_extensions_all_handled :
+  (forall n, In n (mdit_tested_extensions ++ other_tested_extensions) -> In n known_extensions) /\
+  (forall n, In n known_extensions -> In n mdit_tested_extensions \/ In n other_tested_extensions) /\
+  (forall n hl, In n mdit_tested_extensions ->
+     create_md_parser_src hl (with_extensions [n] default_cfg)
+     <> create_md_parser_src hl (with_extensions [] default_cfg)).
+Proof. exact extensions_all_handled. Qed.
+Print Assumptions C13_extensions_all_handled.
+
+(* the description is a function of the validated config (and has_linkify) alone; two spellings of the same
+   set of extensions (list / tuple / set, any order, repetitions) give the same config and the same parser *)
+Theorem C13_parser_same_for_spellings : forall imp hl v1 v2 l1 l2 c1 c2,
+  seq3 v1 l1 -> seq3 v2 l2 -> (forall x, In x l1 <-> In x l2) ->
+  mk_config (E_of imp) fields [(s_enable_extensions, v1)] = Ok c1 ->
+  mk_config (E_of imp) fields [(s_enable_extensions, v2)] = Ok c2 ->
+  c1 = c2 /\ create_md_parser_src hl c1 = create_md_parser_src hl c2.
+Proof. exact parser_same_for_spellings. Qed.
+Print Assumptions C13_parser_same_for_spellings.
+
+(* what commonmark_only / gfm_only do, exactly as coded: a fixed parser that reads only words_per_minute
+   (and enable_checkboxes for gfm_only); enable_extensions (and disable_syntax, and every other option) is
+   ignored.  docs/configuration.md says "Use strict CommonMark parser" / "Use strict Github Flavoured Markdown
+   parser" and promises nothing else - observation, not a finding. *)
+Theorem C13_only_modes_as_coded : forall hl c,
+  (cfg_flag (lit "commonmark_only") c = true ->
+   create_md_parser_src hl c =
+   {| pd_preset := lit "commonmark";
+      pd_steps := [PUse (lit "wordcount_plugin") [(lit "per_minute", cfg_val (lit "words_per_minute") c)]];
+      pd_options := [(lit "myst_config", JOpaque (lit "config"))] |}) /\
+  (cfg_flag (lit "commonmark_only") c = false -> cfg_flag (lit "gfm_only") c = true ->
+   create_md_parser_src hl c =
+   {| pd_preset := lit "commonmark";
+      pd_steps := [PEnable (lit "strikethrough"); PEnable (lit "table");
+                   PUse (lit "tasklists_plugin") [(lit "enabled", cfg_val (lit "enable_checkboxes") c)];
+                   PEnable (lit "linkify");
+                   PUse (lit "wordcount_plugin") [(lit "per_minute", cfg_val (lit "words_per_minute") c)]];
+      pd_options := [(lit "linkify", JBool true); (lit "myst_config", JOpaque (lit "config"))] |}) /\
+  (forall names, cfg_flag (lit "commonmark_only") c = true \/ cfg_flag (lit "gfm_only") c = true ->
+   create_md_parser_src hl (with_extensions names c) = create_md_parser_src hl c).
+Proof.
+  exact (fun hl c => conj (commonmark_only_parser hl c)
+                          (conj (gfm_only_parser hl c) (fun names => only_modes_ignore_extensions hl c names))).
+Qed.
+Print Assumptions C13_only_modes_as_coded.
 
 (* the code before the repair (raw value assigned after validation) did not have the property:
    front matter  myst: {url_schemes: [http]}  left a list where the global setting gives a dict *)
